@@ -781,16 +781,16 @@ example :
 
 /-! ## ★ wave 3: pattern WORDS — every quoting mechanism of the shell -/
 
-/-- ★ `to_pattern_chars` after `apply_escapes`, for EVERY sequence of attributed characters in which no unquoted
-    backslash stands directly before a quoting character: the result is what XCU 2.13.1 says about the sequence after
+/-- ★ `to_pattern_chars` after `apply_escapes`, for EVERY sequence of attributed characters (no exception since fix
+    9da0f0e; before it, a backslash directly before a quoting character quoted that character): the result is what XCU 2.13.1 says about the sequence after
     quote removal — a QUOTING character contributes nothing (also one that is quoted at the same time: the backslash of
     `"\$"`, the inner quotes of `"${x+"a"}"`), a quoted character is `Literal` whatever it is, an unquoted one keeps its
     meaning, an unquoted backslash quotes its successor.  So no more pattern characters come out than non-quoting
     characters went in.  (Seeded change round 7: "quoted wins over quoting" emits the backslash of `"\$"`.) -/
-theorem attr_pattern_chars (cs : List AttrChar) (h : noEscapedMark cs = true) :
+theorem attr_pattern_chars (cs : List AttrChar) :
     toPatternChars (applyEscapes cs) = escapeMarked (attrMarks cs) ∧
     (toPatternChars (applyEscapes cs)).length ≤ (cs.filter fun c => !c.isQuoting).length := by
-  have e := toPatternChars_applyEscapes cs h
+  have e := toPatternChars_applyEscapes cs
   refine ⟨e, ?_⟩
   rw [e]
   have hl : ∀ ms : List (Char × Bool), (escapeMarked ms).length ≤ ms.length := by
@@ -815,23 +815,39 @@ example :
 /-- ★ The pattern characters of a pattern WORD — unquoted text, `\c`, `'…'`, `"…"` with `\c` and parameters inside,
     `${N+word}` nested either way — are the Spec's: quote removal on what the expansion yields gives exactly the
     characters the word denotes, each marked quoted iff some quoting mechanism of the word covers it (`PWord.marks`, a
-    recursion on the word with one flag); then XCU 2.13.1.  The hypothesis is decidable and checked per case by the
-    driver; it holds for every word none of whose UNQUOTED parameter values contains a backslash — then no backslash
-    rule is left at all and the pattern is the marked characters one for one. -/
+    recursion on the word with one flag); then XCU 2.13.1 — for every word, no hypothesis (since fix 9da0f0e).  When
+    no UNQUOTED backslash is left after quote removal the pattern is the marked characters one for one; and the corner
+    the fix defines: a word whose last character after quote removal is an unquoted backslash (`$p""` with `p` = `\`,
+    however many quotation marks follow it) keeps that backslash as an ordinary trailing character. -/
 theorem word_pattern_chars (w : PWord) :
     attrMarks (wordAttrs w) = w.marks false ∧
-    (noEscapedMark (wordAttrs w) = true → patternOfWord w = specWordChars w) ∧
-    ((w.marks false).all (fun m => !rawBackslash m) = true →
-      noEscapedMark (wordAttrs w) = true ∧ patternOfWord w = (w.marks false).map markChar) := by
+    patternOfWord w = specWordChars w ∧
+    ((w.marks false).all (fun m => !rawBackslash m) = true → patternOfWord w = (w.marks false).map markChar) ∧
+    (∀ ms, w.marks false = ms ++ [('\\', false)] → (ms.all (fun m => !rawBackslash m) = true) →
+      patternOfWord w = ms.map markChar ++ [.normal '\\']) := by
   have hm := attrMarks_wordAttrs w
-  have h1 : noEscapedMark (wordAttrs w) = true → patternOfWord w = specWordChars w := by
-    intro h
+  have h1 : patternOfWord w = specWordChars w := by
     unfold patternOfWord specWordChars
-    rw [toPatternChars_applyEscapes _ h, hm]
-  refine ⟨hm, h1, ?_⟩
-  intro hr
-  have hn := noEscapedMark_of_marks (wordAttrs w) (by rw [hm]; exact hr)
-  exact ⟨hn, by rw [h1 hn]; exact escapeMarked_no_raw _ hr⟩
+    rw [toPatternChars_applyEscapes, hm]
+  refine ⟨hm, h1, ?_, ?_⟩
+  · intro hr
+    rw [h1]; exact escapeMarked_no_raw _ hr
+  · intro ms he hr
+    rw [h1]; unfold specWordChars; rw [he]
+    clear he h1 hm
+    induction ms with
+    | nil => simp [escapeMarked, markChar]
+    | cons m t ih =>
+      simp only [List.all_cons, Bool.and_eq_true] at hr
+      have hm : ¬ (m.1 = '\\' ∧ m.2 = false) := by
+        intro hh; have := hr.1; simp [rawBackslash, hh.1, hh.2] at this
+      cases ht : t ++ [('\\', false)] with
+      | nil => simp at ht
+      | cons d r =>
+        rw [ht] at ih
+        simp only [List.cons_append, ht]
+        rw [escapeMarked, if_neg hm, ih hr.2]
+        simp
 
 /-- non-vacuity: `\*"a"$p` with `p` = `?` — literal `*`, literal `a`, and the `?` of the value keeps its meaning;
     and a word outside the hypothesis: `$p""x` with `p` = `\` -/
@@ -839,7 +855,9 @@ example :
     let w : PWord := .cons (.unq (.bs '*')) (.cons (.dq (.cons (.lit 'a') .nil)) (.cons (.unq (.param ['?'])) .nil))
     (w.marks false).all (fun m => !rawBackslash m) = true ∧
     patternOfWord w = [.literal '*', .literal 'a', .normal '?'] ∧
-    noEscapedMark (wordAttrs (.cons (.unq (.param ['\\'])) (.cons (.dq .nil) (.cons (.unq (.lit 'x')) .nil)))) = false := by
+    patternOfWord (.cons (.unq (.param ['\\'])) (.cons (.dq .nil) (.cons (.unq (.lit 'x')) .nil))) = [.literal 'x'] ∧
+    patternOfWord (.cons (.unq (.param ['a', '\\'])) (.cons (.dq .nil) (.cons (.sq []) .nil))) =
+      [.normal 'a', .normal '\\'] := by
   decide
 
 /-- ★ "quoted or backslash-escaped characters match only themselves", for every quoting mechanism: a word all of whose
@@ -854,7 +872,7 @@ theorem quoted_word_only_itself (w : PWord) (h : ∀ m ∈ w.marks false, m.2 = 
   have hr : (w.marks false).all (fun m => !rawBackslash m) = true := by
     rw [List.all_eq_true]; intro m hm; simp [rawBackslash, h m hm]
   have e : patternOfWord w = (wordValue w).map .literal := by
-    rw [((word_pattern_chars w).2.2 hr).2, markChar_quoted _ h]; rfl
+    rw [(word_pattern_chars w).2.2.1 hr, markChar_quoted _ h]; rfl
   refine ⟨e, ?_, ?_⟩
   · intro subj
     rw [e]
@@ -881,8 +899,9 @@ example :
     `fnmatch_decisions`; an if-chain, a `match` on a tuple, reordered or nested forms read the same, anything else is
     refused): (1) `to_pattern_chars` on one character — quoting ↦ nothing (also when quoted), quoted ↦ `Literal`,
     otherwise `Normal` — is `toPatternChars`; (2) the body of the `apply_escapes` loop runs exactly for a backslash that
-    is neither quoting nor quoted, and sets `is_quoting` on it and `is_quoted` on its successor — `applyEscapes` on two
-    characters; (3) `trim_value` searches with `rfind` exactly under `anchor_end ∧ shortest_match`, for all sixteen
+    is neither quoting nor quoted and has a non-quoting character somewhere after it, and sets `is_quoting` on it and
+    `is_quoted` on the NEXT NON-QUOTING character (fix 9da0f0e) — `applyEscapes` on two and three characters, incl. the
+    corner "only a quoting character follows: nothing changes"; (3) `trim_value` searches with `rfind` exactly under `anchor_end ∧ shortest_match`, for all sixteen
     combinations of the modelled flags, as `trimValue` does.  (Seeded change round 7 alters table (1): this theorem
     then fails before any case runs.) -/
 theorem decision_tables_agree :
@@ -890,22 +909,35 @@ theorem decision_tables_agree :
       Generated.FnmatchDecisions.patternCharTable.lookup (q, g) =
         some (match toPatternChars [⟨v, q, g⟩] with
               | [] => "None" | [.literal _] => "Literal" | [.normal _] => "Normal" | _ => "?")) ∧
-    (∀ (a b : AttrChar),
-      applyEscapes [a, b] =
+    (∀ (a b c : AttrChar), c.isQuoting = false →
+      (applyEscapes [a, c] =
         if (a.value == '\\', a.isQuoting, a.isQuoted) ∈ Generated.FnmatchDecisions.escapeWhen
-        then [{ a with isQuoting := true }, { b with isQuoted := true }] else [a, b]) ∧
-    Generated.FnmatchDecisions.escapeEffects = ["chars[i].is_quoting=true", "chars[j].is_quoted=true"] ∧
+        then [{ a with isQuoting := true }, { c with isQuoted := true }] else [a, c]) ∧
+      (b.isQuoting = true → a.isQuoting = false →
+        (applyEscapes [a, b, c] =
+          if (a.value == '\\', a.isQuoting, a.isQuoted) ∈ Generated.FnmatchDecisions.escapeWhen
+          then [{ a with isQuoting := true }, b, { c with isQuoted := true }] else [a, b, c]) ∧
+        applyEscapes [a, b] = [a, b])) ∧
+    Generated.FnmatchDecisions.escapeTarget = "chars[i+1..].iter().position(|c|!c.is_quoting)" ∧
+    Generated.FnmatchDecisions.escapeEffects = ["chars[i+1+offset].is_quoted=true", "chars[i].is_quoting=true"] ∧
     (Generated.FnmatchDecisions.trimValueSearch.length = 16 ∧ (Generated.FnmatchDecisions.trimValueSearch.map (·.1)).Nodup ∧
       ∀ row ∈ Generated.FnmatchDecisions.trimValueSearch, (∀ f ∈ row.1, f ∈ modelledFlags) ∧
         (if (cfgOfFlags row.1).anchorEnd && (cfgOfFlags row.1).shortest then "rfind" else "find") = row.2) := by
-  refine ⟨?_, ?_, by decide, by decide, by decide, by decide⟩
+  refine ⟨?_, ?_, by decide, by decide, by decide, by decide, by decide⟩
   · intro v q g
     cases q <;> cases g <;> simp [toPatternChars] <;> decide
-  · intro a b
+  · intro a b c hc
     rcases a with ⟨av, aq, ag⟩
     rcases b with ⟨bv, bq, bg⟩
-    by_cases hv : av = '\\' <;> cases aq <;> cases ag <;>
-      simp [applyEscapes, applyEscapesAux, Generated.FnmatchDecisions.escapeWhen, hv]
+    rcases c with ⟨cv, cq, cg⟩
+    simp only at hc; subst hc
+    refine ⟨?_, ?_⟩
+    · by_cases hv : av = '\\' <;> cases aq <;> cases ag <;>
+        simp [applyEscapes, applyEscapesAux, Generated.FnmatchDecisions.escapeWhen, hv]
+    · intro hb ha
+      simp only at hb ha; subst hb; subst ha
+      by_cases hv : av = '\\' <;> cases aq <;>
+        simp [applyEscapes, applyEscapesAux, Generated.FnmatchDecisions.escapeWhen, hv]
 
 /-- ★ lib.rs, re-derived on every run by evaluating the source: on the literal fast path `is_match` / `find` / `rfind`
     apply, for each of the four anchorings, the `str` operation the model applies (`contains` / `find` / `rfind` without
@@ -981,11 +1013,12 @@ theorem parser_specials_agree :
     simp only [List.mem_cons, List.not_mem_nil, or_false, not_or] at hc
     simp [parseInner, hc.1, hc.2.1, hc.2.2.1]
 
-/-- ★ `apply_escapes` is modelled twice: `applyEscapesIdx` is the Rust loop as written (`for j in 1..chars.len()`,
-    `i = j - 1`, the test on `chars[i]`, the two assignments; loop header, test and assignments are re-extracted:
+/-- ★ `apply_escapes` is modelled twice: `applyEscapesIdx` is the Rust loop as written (after fix 9da0f0e:
+    `for i in 0..chars.len()`, the test on `chars[i]`, `chars[i + 1..].iter().position(|c| !c.is_quoting)`, the two
+    assignments under `if let Some(offset)`; header, test, target and assignments are re-extracted:
     `decision_tables_agree`), `applyEscapes` the left-to-right recursion every other theorem speaks about.  They are
-    the same function on every sequence — in particular the loop never looks at the last character as `chars[i]`
-    (a trailing backslash stays what it was) and a character quoted by its predecessor no longer escapes its successor. -/
+    the same function on every sequence — in particular a backslash followed by quoting characters only stays what it
+    was, and a character quoted by a backslash before it no longer escapes its successor. -/
 theorem applyEscapes_is_index_loop (cs : List AttrChar) : applyEscapesIdx cs = applyEscapes cs :=
   applyEscapesIdx_eq cs
 
@@ -995,7 +1028,11 @@ example :
     let c (v : Char) : AttrChar := { value := v, isQuoted := false, isQuoting := false }
     (applyEscapesIdx [c '\\', c '\\', c '\\', c 'x']).map (fun a => (a.isQuoted, a.isQuoting)) =
       [(false, true), (true, false), (false, true), (true, false)] ∧
-    (applyEscapesIdx [c 'a', c '\\']).map (fun a => (a.isQuoted, a.isQuoting)) = [(false, false), (false, false)] := by
+    (applyEscapesIdx [c 'a', c '\\']).map (fun a => (a.isQuoted, a.isQuoting)) = [(false, false), (false, false)] ∧
+    (applyEscapesIdx [c '\\', quoteMark, quoteMark, c '*']).map (fun a => (a.isQuoted, a.isQuoting)) =
+      [(false, true), (false, true), (false, true), (true, false)] ∧
+    (applyEscapesIdx [c '\\', quoteMark, quoteMark]).map (fun a => (a.isQuoted, a.isQuoting)) =
+      [(false, false), (false, true), (false, true)] := by
   decide
 
 /-- ★ `case` when expansions of alternatives can fail (case.rs: `expand_word_attr(..).await?` inside `matches`,
@@ -1174,11 +1211,12 @@ theorem regex_crate_facts :
        ("flag letter of swap_greed", "U"),
        ("dot with dot_matches_new_line and unicode", "Dot::AnyChar")] := by decide
 
-/-- the one place where the implementation and XCU 2.13.1 part (KNOWN_FINDINGS, `w … P5c/D/L2a`): in `$p""*` with
-    `p` = `\\` the backslash quotes the quotation mark, so the `*` stays a wildcard; the Spec reads `\\*` -/
+/-- the class fix 9da0f0e repaired (witnesses `w … P5c/D/L2a` in corpus/C04/words.txt): in `$p""*` with `p` = `\\` the
+    backslash quotes the `*` (before the fix it quoted the quotation mark and the `*` stayed a wildcard); model and
+    Spec agree, although `noEscapedMark` — the description of the class — is false -/
 example :
     let w : PWord := .cons (.unq (.param ['\\'])) (.cons (.dq .nil) (.cons (.unq (.lit '*')) .nil))
-    patternOfWord w = [.normal '*'] ∧ specWordChars w = [.literal '*'] ∧ noEscapedMark (wordAttrs w) = false := by
+    patternOfWord w = [.literal '*'] ∧ specWordChars w = [.literal '*'] ∧ noEscapedMark (wordAttrs w) = false := by
   decide
 
 end YashModel.Fnmatch
